@@ -17,7 +17,8 @@ EXPLANATION = (
     "e^-1*mean(e) + true (exhaustive over impl Cone), the composite applies each cone to its own slice of both "
     "arguments and ORs the results, and equilibrate re-applies the rectification to A, b and e before forming the "
     "inverses; (R5) disabled => no write at all; (R6) column/row norms feed the right work vector."
-    " R4 also: no pass of the composite cone loop skips the per-cone rectification for a cone type whose own rectification is not the no-op (skip condition evaluated per cone type from constant layout predicates).")
+    " R4 also: no pass of the composite cone loop skips the per-cone rectification for a cone type whose own rectification is not the no-op (skip condition evaluated per cone type from constant layout predicates)."
+    " R4 also: for the scalar cones (zero, nonnegative) the own rectification is the no-op, so their all-zero rows stay unscaled.")
 ASSUMPTIONS = ['rustc MIR construction and trait resolution are correct',
                'algebra primitives (lrscale, hadamard, col_norms, clip, mean ...) have their documented meaning',
                'the mean of values inside [lo,hi] lies inside [lo,hi]']
@@ -211,8 +212,9 @@ def rectification(rep, F, tag):
                 ident = any(k in ('set(arg2, one())', 'fill(arg2, one())') for k in calls)
                 if ident and r0 == 'false' and not uniform:
                     noop.add(K)
-                R.check((ident and r0 == 'false') or (uniform and r0 == 'true'), 'class|%s%s' % (K, tag),
-                        '%s::rectify_equilibration: neither (delta:=1, false) nor (delta:=mean(e)/e, true): calls %s returns %s' % (K, calls, r0), f.loc())
+                R.check(ident and r0 == 'false' and not uniform, 'class|%s%s' % (K, tag),
+                        '%s::rectify_equilibration must leave the rows of a scalar cone alone (delta := 1, return false): rows and columns that are all zero keep the scaling 1 '
+                        'only then; found calls %s returning %s' % (K, [k[:60] for k in calls], r0), f.loc())
             else:
                 R.check(uniform and r0 == 'true', 'class|%s%s' % (K, tag),
                         '%s is not a product of scalar cones: its rows must be scaled uniformly, i.e. '
@@ -275,20 +277,23 @@ def rectification(rep, F, tag):
         f = eq_fn(F)
         rc = one_call(f, 'rectify_equilibration')
         a = [canon(f.sym_operand(x)) for x in rc.args]
-        R.check(a == ['arg2', 'self.equilibration.einv', 'self.equilibration.e'], 'rectify-args' + tag, 'rectify_equilibration(%s)' % a, f.loc(rc.sp))
+        # the correction vector may live in any work vector W (the code uses einv as scratch); what matters is that the same W is then
+        # applied to the data and to e, and that the inverses are formed afterwards
+        R.check(len(a) == 3 and a[0] == 'arg2' and a[2] == 'self.equilibration.e' and a[1] != a[2], 'rectify-args' + tag, 'rectify_equilibration(%s): expected (cones, <work vector>, e)' % a, f.loc(rc.sp))
+        Wv = a[1] if len(a) == 3 else 'self.equilibration.einv'
         for val, ret, ev, tr in Walker(f, cut_loops=True).leaves():
             k = [x for x in val if x.startswith('rectify_equilibration(')]
             if not k:
                 continue
             calls = [e[2] for e in ev if e[0] == 'call']
-            app = 'scale_data(self.P, self.A, self.q, self.b, Option::None, self.equilibration.einv)' in calls and 'hadamard(self.equilibration.e, self.equilibration.einv)' in calls
+            app = ('scale_data(self.P, self.A, self.q, self.b, Option::None, %s)' % Wv) in calls and ('hadamard(self.equilibration.e, %s)' % Wv) in calls
             R.check(app == bool(val[k[0]]), 'reapply-iff-changed|%d%s' % (val[k[0]], tag), 'rectification %s with changed=%d' % ('applied' if app else 'not applied', val[k[0]]), f.loc())
             inv = [c for c in calls if c.startswith('scalarop_from(')]
             R.check(inv == ['scalarop_from(self.equilibration.dinv, <T as num_traits::Float>::recip, self.equilibration.d)',
                             'scalarop_from(self.equilibration.einv, <T as num_traits::Float>::recip, self.equilibration.e)'], 'inverses-last|%d%s' % (val[k[0]], tag),
                     'inverse scalings: %s' % inv, f.loc())
             if app:
-                R.check(calls.index('hadamard(self.equilibration.e, self.equilibration.einv)') < calls.index(inv[1]) if len(inv) == 2 else False,
+                R.check(calls.index('hadamard(self.equilibration.e, %s)' % Wv) < calls.index(inv[1]) if len(inv) == 2 else False,
                         'inverse-after-rectify' + tag, 'einv is formed before the rectified e', f.loc())
         h = [hh for hh in f.loops() if True]
         R.check(all(not (rc.bb in body) for body in f.loops().values()), 'rectify-after-loop' + tag, 'rectification happens inside the Ruiz loop', f.loc(rc.sp))
